@@ -56,6 +56,35 @@ def cleanup_writes(tier, rng):
                         k += 1
     if tier == "quick":
         out = rng.sample(out, 120)
+    return out + cleanup_creates()
+
+
+def cleanup_creates():
+    """cleanups that create nodes / register cleanups in the very scope that is being disposed (through run_in on its handle, or
+    because the dying computation is still the current owner), then later writes / context lookups (finding F20)"""
+    out = []
+    k = 0
+    made = {
+        "effect": [("effect", 5, ("body", None, [("usectx", 1)], ("get", 1)))],
+        "memo": [("memo", 5, ("body", None, [], ("add", ("get", 1), ("lit", 1))))],
+        "signal": [("signal", 5, ("lit", 3))],
+        "cleanup": [("oncleanup", 2, [("log", ("lit", 7))])],
+        "scope": [("scope", 5, [("oncleanup", 3, []), ("signal", 6, ("lit", 0))])],
+        "nested": [("oncleanup", 2, [("oncleanup", 3, [("signal", 6, ("lit", 1))])])],
+    }
+    for what, stmts in made.items():
+        # (a) through run_in on the handle of the scope being disposed
+        prog = [("signal", 1, ("lit", 0)), ("scope", 2, [("curscope", 4), ("provide", 1, ("lit", 9)), ("oncleanup", 1, [("runin", 4, stmts)])]),
+                ("dispose", 2), ("set", 1, ("lit", 1)), ("dispose", 0)]
+        out.append(("cleanup-creates:%d" % k, prog)); k += 1
+        # (b) an effect whose cleanup creates things, then disposes itself / is re-run / its scope is disposed
+        for trig in ("self", "rerun", "scope"):
+            body_ss = [("oncleanup", 1, stmts)] + ([("if", ("lt", ("lit", 0), ("get", 8)), [("dispose", 3)], [])] if trig == "self" else [])
+            prog = [("signal", 1, ("lit", 0)), ("signal", 8, ("lit", 0)),
+                    ("scope", 2, [("effect", 3, ("body", None, body_ss, ("get", 8)))])]
+            prog += [("set", 8, ("lit", 1))] if trig in ("self", "rerun") else [("dispose", 2)]
+            prog += [("set", 1, ("lit", 1)), ("set", 8, ("lit", 2)), ("dispose", 0)]
+            out.append(("cleanup-creates:%d" % k, prog)); k += 1
     return out
 
 
